@@ -44,6 +44,40 @@ pub trait Oracle {
 pub struct NoOracle;
 impl Oracle for NoOracle {}
 
+/// C12/C13/C15: iteration bound and reach probes for cyclic programs.
+#[derive(Default)]
+pub struct CycleOracle {
+    pub max_iter: u64,
+}
+impl Oracle for CycleOracle {
+    fn after_step(&mut self, _db: &SimDatabase, _world: &World, step: usize, _info: &StepInfo, evs: &[Ev], out: &mut RunOut) {
+        let mut heads = std::collections::BTreeSet::new();
+        for e in evs {
+            match e {
+                Ev::Salsa { k: SK::WillIterateCycle, id, x, .. } => {
+                    out.bump("cycle_iterations");
+                    heads.insert(*id);
+                    if *x > 200 {
+                        out.viol("iteration_bound_exceeded", step, format!("WillIterateCycle iteration {x} > 200"));
+                    }
+                    if *x > self.max_iter {
+                        self.max_iter = *x;
+                    }
+                }
+                Ev::Salsa { k: SK::DidFinalizeCycle, .. } => out.bump("cycles_finalized"),
+                _ => {}
+            }
+        }
+        if heads.len() > 1 {
+            out.bump("steps_with_several_cycle_heads");
+        }
+    }
+    fn at_end(&mut self, db: Option<SimDatabase>, _world: &World, out: &mut RunOut) {
+        out.add("max_cycle_iteration", self.max_iter);
+        drop(db);
+    }
+}
+
 pub fn for_case(case: &Case) -> Box<dyn Oracle> {
     use crate::reuse::{Modes, ReuseOracle};
     match case.property.as_str() {
@@ -51,6 +85,7 @@ pub fn for_case(case: &Case) -> Box<dyn Oracle> {
         "C04" => Box::new(ReuseOracle::new(case, Modes { justify: true, untracked_rule: true, ..Default::default() })),
         "C06" => Box::new(ReuseOracle::new(case, Modes { justify: true, ts_identity: true, ..Default::default() })),
         "C05" => Box::new(ReuseOracle::new(case, Modes { justify: true, lru: true, ..Default::default() })),
+        "C12" | "C13" | "C14" | "C15" => Box::new(CycleOracle::default()),
         "C09" => Box::new(ReuseOracle::new(case, Modes { justify: true, intern: true, ..Default::default() })),
         "C07" => Box::new(crate::alias::AliasOracle { inner: Some(Box::new(ReuseOracle::new(case, Modes { justify: true, ..Default::default() }))), ..Default::default() }),
         _ => Box::new(NoOracle),
